@@ -12,7 +12,7 @@ InjSeqs(S, n) == UNION {{s \in [1..k -> S] : \A i, j \in 1..k : i # j => s[i] # 
 Sub(f, S) == [x \in S |-> f[x]]
 
 \* objects a configuration needs for its rules (Netspoc only emits what it uses)
-AddrsOf(rs, g) == UNION {(rs[i].src \cup rs[i].dst) \cap (DOMAIN AddrVal) : i \in DOMAIN rs}
+AddrsOf(rs, g) == UNION {(rs[i].src \cup rs[i].dst) \cap ((DOMAIN AddrVal) \cup {"a6", "a9"}) : i \in DOMAIN rs}
                   \cup UNION {g[n] : n \in DOMAIN g}
 GroupsOf(rs) == UNION {(rs[i].src \cup rs[i].dst) \cap {"g0", "g1", "g0-1"} : i \in DOMAIN rs}
 SvcsOf(rs, sg) == UNION {rs[i].svc \cap (DOMAIN SvcVal) : i \in DOMAIN rs} \cup UNION {sg[n] : n \in DOMAIN sg}
@@ -62,7 +62,24 @@ P7 ==
     /\ dev = Cfg(Named(a, DevNames), NoFn, NoFn, AddrVal, SvcVal) @@ [vsys2 |-> TRUE]
     /\ tgt = Cfg(Named(b, TgtNames), NoFn, NoFn, AddrVal, SvcVal)
 
-Init == CASE Fam = "P7" -> P7 [] Fam = "P1" -> P1 [] Fam = "P2" -> P2 [] Fam = "P3" -> P3
+(* M1: merge of the Netspoc IPv4 rulebase with the IPv6 rulebase and raw rules (prepended, or *)
+(* appended when they carry <APPEND/>) on an empty vsys (C18)                                *)
+SeqsUpTo(S, n) == InjSeqs(S, n)
+V4Pool  == {Rule("r1", "allow", {"a1"}, {"a3"}, {"s80"}, ""), Rule("r2", "allow", {"a2"}, {"any"}, {"s53"}, ""),
+            Rule("r3", "deny", {"any"}, {"any"}, {"any"}, "")}
+V6Pool  == {Rule("v6r1", "allow", {"a6"}, {"any"}, {"s80"}, ""), Rule("v6r2", "deny", {"any"}, {"a6"}, {"any"}, "")}
+PrePool == {Rule("rawA", "allow", {"any"}, {"a3"}, {"s22"}, ""), Rule("rawB", "deny", {"a9"}, {"any"}, {"any"}, "")}
+AppPool == {Rule("rawC", "deny", {"any"}, {"any"}, {"s22"}, ""), Rule("rawD", "allow", {"a9"}, {"any"}, {"any"}, "")}
+AddrValM == AddrVal @@ [a6 |-> "2001:db8:1::1/128", a9 |-> "10.9.9.9/32"]
+M1 ==
+  \E v4 \in InjSeqs(V4Pool, MaxLen), v6 \in SeqsUpTo(V6Pool, 2), pre \in SeqsUpTo(PrePool, 2), app \in SeqsUpTo(AppPool, 2) :
+    /\ v4 # <<>>
+    /\ dev = Cfg(<<>>, NoFn, NoFn, AddrValM, SvcVal)
+    /\ tgt = Cfg(v4, NoFn, NoFn, AddrValM, SvcVal) @@
+             [parts |-> [v4 |-> v4, v6 |-> v6, pre |-> pre, app |-> app,
+                         c6 |-> Cfg(v6, NoFn, NoFn, AddrValM, SvcVal), craw |-> Cfg(pre \o app, NoFn, NoFn, AddrValM, SvcVal)]]
+
+Init == CASE Fam = "M1" -> M1 [] Fam = "P7" -> P7 [] Fam = "P1" -> P1 [] Fam = "P2" -> P2 [] Fam = "P3" -> P3
 Next == UNCHANGED <<dev, tgt>>
 HasTie == \E g, h \in DOMAIN dev.groups : g # h /\ dev.groups[g] = dev.groups[h]
 Out == PrintT(<<"VOUT", ToJson([fam |-> Fam, dev |-> dev, tgt |-> tgt, tie |-> HasTie])>>)
